@@ -282,6 +282,15 @@ func (v *collator_[V]) compareValues(first ref.Value, second ref.Value) bool {
 			return second.IsNil()
 		case second.IsNil():
 			return false // We know that first isn't nil.
+		case first.Kind() == ref.Interface || second.Kind() == ref.Interface:
+			// Compare the values held by the interfaces as what they are.
+			if first.Kind() == ref.Interface {
+				first = first.Elem()
+			}
+			if second.Kind() == ref.Interface {
+				second = second.Elem()
+			}
+			return v.compareValues(first, second)
 		case first.MethodByName("AsArray").IsValid():
 			// The value is a sequence.
 			return v.compareSequences(first, second)
@@ -737,6 +746,15 @@ func (v *collator_[V]) rankValues(first ref.Value, second ref.Value) Rank {
 			return LesserRank
 		case second.IsNil():
 			return GreaterRank // We know that first isn't nil.
+		case first.Kind() == ref.Interface || second.Kind() == ref.Interface:
+			// Rank the values held by the interfaces as what they are.
+			if first.Kind() == ref.Interface {
+				first = first.Elem()
+			}
+			if second.Kind() == ref.Interface {
+				second = second.Elem()
+			}
+			return v.rankValues(first, second)
 		case first.MethodByName("AsArray").IsValid():
 			// The value is a collection.
 			return v.rankSequences(first, second)
